@@ -428,7 +428,7 @@ func genC14(tier string, r *Rng, emit func(Case)) {
 	for i := 0; i < 2*n; i++ {
 		ver := allVers[i%3]
 		kind := "T"
-		if ver == "v3" && i%3 == 0 {
+		if ver == "v3" && (i/3)%2 == 0 {
 			kind = "G" // lazily computed: the digit source runs while the search does
 		}
 		if t, ok := genFindCase(r, ver, kind); ok {
